@@ -466,6 +466,137 @@ theorem arc_between_inside (c a b w : K × K) (ρ : K) (hρ : 0 < ρ)
     nlinarith
   exact le_of_mul_le_mul_left this hab
 
+/-- scalar core of the monotonicity of the arc: in the frame `(c, c⊥)` write a direction `u` of
+the circle as `(−x, β)` (`x = −u·c`, `β = c × u`); for two inside directions (`x ≥ ρ²`) of the
+same length, `a × w ≥ 0` forces the Klein line coordinate `β/(C − x)` of `w` below that of `a` -/
+theorem arc_mono_core (C ρ xa ba xw bw : K) (hC : C = 1 + ρ ^ 2) (hρ : 0 < ρ)
+    (ha : xa ^ 2 + ba ^ 2 = ρ ^ 2 * C) (hw : xw ^ 2 + bw ^ 2 = ρ ^ 2 * C)
+    (hxa : ρ ^ 2 ≤ xa) (hxw : ρ ^ 2 ≤ xw) (H : 0 ≤ ba * xw - xa * bw) :
+    bw * (C - xa) - ba * (C - xw) ≤ 0 := by
+  have hρ2 : 0 < ρ ^ 2 := by positivity
+  have hC0 : 0 < C := by rw [hC]; positivity
+  have hsum : 0 < xa + xw := by linarith
+  -- S (R + P) = H (xa + xw), with S = ba − bw, R = ρ² C, P = xa xw + ba bw
+  have hid : (ba - bw) * (ρ ^ 2 * C + (xa * xw + ba * bw))
+      = (ba * xw - xa * bw) * (xa + xw) := by
+    linear_combination bw * ha - ba * hw
+  have hRP : 0 < ρ ^ 2 * C + (xa * xw + ba * bw) := by
+    have : 2 * (ρ ^ 2 * C + (xa * xw + ba * bw)) = (xa + xw) ^ 2 + (ba + bw) ^ 2 := by
+      linear_combination (-1 : K) * ha + (-1 : K) * hw
+    have h2 : 0 < (xa + xw) ^ 2 := by positivity
+    nlinarith [sq_nonneg (ba + bw)]
+  have hS0 : 0 ≤ ba - bw := by
+    have : 0 ≤ (ba - bw) * (ρ ^ 2 * C + (xa * xw + ba * bw)) := by
+      rw [hid]; exact mul_nonneg H hsum.le
+    exact nonneg_of_mul_nonneg_left this hRP
+  -- the bracket C (xa + xw) − R − P is non-negative
+  have hbr : 0 ≤ C * (xa + xw) - ρ ^ 2 * C - (xa * xw + ba * bw) := by
+    have hbb : ba * bw ≤ ρ ^ 2 * C - (xa ^ 2 + xw ^ 2) / 2 := by nlinarith [sq_nonneg (ba - bw)]
+    have e : C * (xa + xw) - ρ ^ 2 * C - xa * xw - (ρ ^ 2 * C - (xa ^ 2 + xw ^ 2) / 2)
+        = C * ((xa - ρ ^ 2) + (xw - ρ ^ 2)) + (xa - xw) ^ 2 / 2 := by
+      rw [hC]; ring
+    have h1 : 0 ≤ C * ((xa - ρ ^ 2) + (xw - ρ ^ 2)) := mul_nonneg hC0.le (by linarith)
+    have h2 : 0 ≤ (xa - xw) ^ 2 / 2 := by positivity
+    linarith
+  -- (C S − H)(xa + xw) = S (C (xa + xw) − R − P) ≥ 0
+  have hkey : (C * (ba - bw) - (ba * xw - xa * bw)) * (xa + xw)
+      = (ba - bw) * (C * (xa + xw) - ρ ^ 2 * C - (xa * xw + ba * bw)) := by
+    linear_combination hid
+  have hpos : 0 ≤ (C * (ba - bw) - (ba * xw - xa * bw)) * (xa + xw) := by
+    rw [hkey]; exact mul_nonneg hS0 hbr
+  have hfin : 0 ≤ C * (ba - bw) - (ba * xw - xa * bw) := nonneg_of_mul_nonneg_left hpos hsum
+  linarith
+
+/-- Klein point of a point `U = c + u` of the circle: `U/(U·c)`; on the circle (`|U − c|² = ρ²`,
+`|c|² = 1 + ρ²`) this is `poincare_to_kleinian(U) = 2U/(1 + |U|²)` -/
+def kleinOfArc (c u : K × K) : K × K :=
+  ((c.1 + u.1) / (dot2 c c + dot2 u c), (c.2 + u.2) / (dot2 c c + dot2 u c))
+
+theorem kleinOfArc_eq_p2k (c u : K × K) (ρ : K) (hc : dot2 c c = 1 + ρ ^ 2) (hu : dot2 u u = ρ ^ 2) :
+    dot2 c c + dot2 u c
+      = (1 + dot2 (c.1 + u.1, c.2 + u.2) (c.1 + u.1, c.2 + u.2)) / 2 := by
+  unfold dot2 at *; linarith
+
+/-- **every point of the reported arc is on the hyperbolic segment**: on a circle orthogonal to
+the unit circle, with ends `A = c + a`, `B = c + b` inside the closed disk and `a × b > 0` (the
+order `short_arc` returns), every point `W = c + w` of the counter-clockwise arc from `a` to `b`
+has its Klein point on the Klein *segment* between the Klein points of `A` and `B` — a convex
+combination — i.e. `W` lies on the hyperbolic segment `AB`, not merely on its geodesic -/
+theorem arc_point_on_segment (c a b w : K × K) (ρ : K) (hρ : 0 < ρ) (hc : dot2 c c = 1 + ρ ^ 2)
+    (ha : dot2 a a = ρ ^ 2) (hb : dot2 b b = ρ ^ 2) (hw : dot2 w w = ρ ^ 2)
+    (hab : 0 < cross2 a b) (haw : 0 ≤ cross2 a w) (hwb : 0 ≤ cross2 w b)
+    (hain : dot2 a c ≤ -ρ ^ 2) (hbin : dot2 b c ≤ -ρ ^ 2) :
+    ∃ s : K, 0 ≤ s ∧ s ≤ 1 ∧
+      kleinOfArc c w = (s * (kleinOfArc c a).1 + (1 - s) * (kleinOfArc c b).1,
+                         s * (kleinOfArc c a).2 + (1 - s) * (kleinOfArc c b).2) := by
+  have hwin : dot2 w c ≤ -ρ ^ 2 :=
+    arc_between_inside c a b w ρ hρ ha hb hw hab haw hwb hain hbin
+  set C := dot2 c c with hCdef
+  have hC0 : 0 < C := by rw [hc]; positivity
+  -- frame coordinates: x = −u·c, β = c × u, with x² + β² = ρ² C
+  have frame : ∀ u : K × K, dot2 u u = ρ ^ 2 → (-(dot2 u c)) ^ 2 + (cross2 c u) ^ 2 = ρ ^ 2 * C := by
+    intro u hu; rw [hCdef]; unfold dot2 cross2 at *; linear_combination (c.1 ^ 2 + c.2 ^ 2) * hu
+  have crossid : ∀ u v : K × K, cross2 c u * (-(dot2 v c)) - (-(dot2 u c)) * cross2 c v
+      = C * cross2 u v := by
+    intro u v; rw [hCdef]; unfold dot2 cross2; ring
+  have hCeq : C = 1 + ρ ^ 2 := hc
+  -- denominators D(u) = C + u·c = (1 + |U|²)/2 > 0
+  have hD : ∀ u : K × K, dot2 u u = ρ ^ 2 → 0 < C + dot2 u c := by
+    intro u hu
+    have h := kleinOfArc_eq_p2k c u ρ hc hu
+    rw [← hCdef] at h
+    rw [h]
+    have : 0 ≤ dot2 (c.1 + u.1, c.2 + u.2) (c.1 + u.1, c.2 + u.2) :=
+      add_nonneg (mul_self_nonneg _) (mul_self_nonneg _)
+    linarith
+  -- the line coordinate g(u) = (c × u)/D(u) decreases along the counter-clockwise arc
+  have mono : ∀ u v : K × K, dot2 u u = ρ ^ 2 → dot2 v v = ρ ^ 2 → dot2 u c ≤ -ρ ^ 2 →
+      dot2 v c ≤ -ρ ^ 2 → 0 ≤ cross2 u v →
+      cross2 c v / (C + dot2 v c) ≤ cross2 c u / (C + dot2 u c) := by
+    intro u v hu hv hui hvi huv
+    have H : 0 ≤ cross2 c u * (-(dot2 v c)) - (-(dot2 u c)) * cross2 c v := by
+      rw [crossid u v]; exact mul_nonneg hC0.le huv
+    have h := arc_mono_core C ρ (-(dot2 u c)) (cross2 c u) (-(dot2 v c)) (cross2 c v) hCeq hρ
+      (frame u hu) (frame v hv) (by linarith) (by linarith) H
+    rw [div_le_div_iff₀ (hD v hv) (hD u hu)]
+    simp only [sub_neg_eq_add] at h
+    linarith
+  -- Klein points in the frame (c, c⊥): X(u) = (c + g(u) c⊥)/C
+  have hX : ∀ u : K × K, dot2 u u = ρ ^ 2 →
+      kleinOfArc c u = ((c.1 - cross2 c u / (C + dot2 u c) * c.2) / C,
+                        (c.2 + cross2 c u / (C + dot2 u c) * c.1) / C) := by
+    intro u hu
+    have hd := (hD u hu).ne'
+    have hC' := hC0.ne'
+    unfold kleinOfArc
+    rw [← hCdef]
+    have e1 : (c.1 + u.1) / (C + dot2 u c) = (c.1 - cross2 c u / (C + dot2 u c) * c.2) / C := by
+      field_simp
+      rw [hCdef]; unfold dot2 cross2; ring
+    have e2 : (c.2 + u.2) / (C + dot2 u c) = (c.2 + cross2 c u / (C + dot2 u c) * c.1) / C := by
+      field_simp
+      rw [hCdef]; unfold dot2 cross2; ring
+    rw [e1, e2]
+  have h1 := mono a w ha hw hain hwin haw
+  have h2 := mono w b hw hb hwin hbin hwb
+  rw [hX w hw, hX a ha, hX b hb]
+  generalize cross2 c a / (C + dot2 a c) = ga at h1 h2 ⊢
+  generalize cross2 c b / (C + dot2 b c) = gb at h1 h2 ⊢
+  generalize cross2 c w / (C + dot2 w c) = gw at h1 h2 ⊢
+  have hC' := hC0.ne'
+  by_cases hne : ga = gb
+  · refine ⟨0, le_refl _, zero_le_one, ?_⟩
+    have : gw = gb := le_antisymm (by rw [← hne]; exact h1) h2
+    rw [this]; simp
+  · have hlt : gb < ga := lt_of_le_of_ne (le_trans h2 h1) (Ne.symm hne)
+    have hpos : 0 < ga - gb := by linarith
+    refine ⟨(gw - gb) / (ga - gb), div_nonneg (by linarith) hpos.le,
+      (div_le_one hpos).2 (by linarith), ?_⟩
+    have hne' : ga - gb ≠ 0 := hpos.ne'
+    refine Prod.ext ?_ ?_
+    · simp only; field_simp; ring
+    · simp only; field_simp; ring
+
 /-- the half-plane analogue: between two directions of the closed upper half-plane (centre on
 the boundary) every direction of the counter-clockwise arc points into the closed upper
 half-plane -/
